@@ -301,6 +301,9 @@ func (p *parser) addEventParamsToScope(e *EventHandlerStmt) {
 		if i >= len(expectedParams) {
 			return
 		}
+		if param.Type() == nil {
+			continue // previous error: invalid type declaration
+		}
 		p.validateVarDecl(param, param.token, true /* allowUnderscore */)
 		exptectedType := expectedParams[i].Type()
 		if !param.Type().Equals(exptectedType) {
